@@ -433,12 +433,20 @@ def standard_flow(ctx, spec):
     known = {k["id"]: k for k in load_known(pid)}
     known_hits = {}
     new_fail = []
-    for (i, c, a, why) in oracle_fail:
+    # shortest cases first; once a violation is established, attribution (which may re-run model or
+    # implementation per case) is cut off after a budget — the remaining failures are only counted
+    t_attr = time.time()
+    unexamined = 0
+    for n_attr, (i, c, a, why) in enumerate(sorted(oracle_fail, key=lambda t: len(t[1]))):
+        if new_fail and (n_attr >= 300 or time.time() - t_attr > 120):
+            unexamined = len(oracle_fail) - n_attr
+            break
         fid = spec["attribute"](c, a, why) if spec.get("attribute") else None
         if fid and fid in known:
             known_hits.setdefault(fid, []).append(c)
         else:
             new_fail.append((i, c, a, why))
+    state["oracle_fail_unexamined"] = unexamined
     for fid, cs in known_hits.items():
         ctx.known.append(f"{fid} {known[fid]['text']} (reproduced on {len(cs)} case(s), e.g. `{cs[0]}`)")
     if new_fail:
